@@ -266,6 +266,13 @@ def step (ps : PState) (fs : List String) (obs : String) : PState × String × S
     let reqX := if hs = "1" then strHex "c1" else if hs = "2" then strHex "c2,c3" else if hs = "3" then strHex "c4" else "-"
     let reqBody := if body = "-" then 0 else (unhexS body).length
     let m := (render ps.tunnel res method resp log reqX reqBody).replace "ifrange=IFR" s!"ifrange={ifrSym}"
+    -- the Age header counts whole seconds of REAL time since the entry was written; the model ticks 1 ms per
+    -- request, so on a loaded machine the implementation may legitimately be up to 2 s ahead: not a difference
+    let ageM := between m " age=" " "
+    let ageI := between obs " age=" " "
+    let m := match ageM.toNat?, ageI.toNat? with
+      | some a, some b => if a < b && b ≤ a + 2 then m.replace s!" age={ageM} " s!" age={ageI} " else m
+      | _, _ => m
     let v0 := verdict { ps with now := now } tf r entryBefore obs ps.served
     -- C03 / C06: a plain GET of an entry that is fresh (with margin) needs no origin contact; after a 304 the
     -- renewed lifetime counts from the revalidation; a HIT serves the stored version, never a replaced one
@@ -320,6 +327,12 @@ def step (ps : PState) (fs : List String) (obs : String) : PState × String × S
       else if log.isEmpty then ps.renewed else ps.renewed.filter (· ≠ (res, r.query))
     ({ ps with cache := cache', now := now, armed := armed', renewed := renewed' }, m, v1)
     | _ => (ps, "bad-op", "bad:bad-op")
+  | ["px", "abort", _id, _k] =>
+    -- the next origin transfer for the resource fails part-way (full Content-Length, a prefix of the body, EOF):
+    -- whether the partial write reached the store is the cache's business; from here on the trace is judged with the
+    -- cache-independent predicates only (every 200 carries a COMPLETE body of a version the origin produced, never a
+    -- stored truncation; no hang; no crash)
+    ({ ps with pressure := true }, "armed", "ok")
   | ["px", "arm", id] => ({ ps with armed := nat id :: ps.armed.filter (· ≠ nat id) }, "armed", "ok")
   | ["px", "shift", ms] => ({ ps with now := ps.now + int ms }, "shifted", "ok")
   | ["px", "tunnelclose"] => (ps, "closed", "ok")
